@@ -7,6 +7,7 @@ import fam_textio
 import fam_cache
 import fam_cachecli
 import fam_cli
+import fam_genbank
 
 
 def lookup(prop):
@@ -28,4 +29,6 @@ def lookup(prop):
         return fam_cachecli.run
     if prop == "C15":
         return fam_cli.run
+    if prop == "C01":
+        return fam_genbank.run
     return None
